@@ -214,6 +214,13 @@ def regen(ctx, vlib):
     try:
         new = translate(vlib.REPO)
     except (TranslateError, OSError, KeyError) as e:
+        # fail closed: the theorems are checked against the committed snapshot of the model
+        # (coq/C03/Gen.v.snapshot, never written at run time) and the correspondence run carries the tie
+        snap = open(path + ".snapshot").read()
+        if old != snap:
+            with vlib.CoqLock():
+                with open(path, "w") as f:
+                    f.write(snap)
         ctx.translator("C03/Gen.v", "fallback: %s" % e)
         return False
     if new == old:
